@@ -299,3 +299,30 @@ Theorem C07_decisions_generated :
        end).
 Proof. exact close_generated. Qed.
 Print Assumptions C07_decisions_generated.
+
+(* ==== the listener correspondence engine stays inside the model's reachable states ========= *)
+From Verif Require Import Proofs.ListenerRunP.
+
+(* Every operation of a listenerclose script (an Accept / Close call in a new goroutine, the
+   return of a parked Accept) followed by the settling of the waiting Close calls is a sequence
+   of steps of the listener system: the states compared with the real tnet wrapper are states
+   C07_listener quantifies over; and after settling no Close call waits although refs = 0. *)
+Theorem C07_listener_entry_reachable : forall s op a,
+  Reach lstep linit s -> Reach lstep linit (lsettle (fst (lop s op a))).
+Proof. exact listener_entry_reachable. Qed.
+Print Assumptions C07_listener_entry_reachable.
+
+Theorem C07_listener_settled : forall s j p,
+  nth_error (lthr (lsettle s)) j = Some p -> refs (lsettle s) = 0 -> p <> LK2.
+Proof. exact listener_settled. Qed.
+Print Assumptions C07_listener_settled.
+
+(* two Accept calls park; Close: underlying closed, blocked (refs = 2); a third Accept fails at
+   once; the first parked Accept still returns a connection (refs = 1, Close still blocked); the
+   second returns an error: refs = 0 and Close returns nil.
+   observation per op: code refs closed #parked #acc-conn #acc-err #close-blocked #close-nil #close-err *)
+Example C07_example_listener :
+  run_listenerclose [6; 0;0; 0;0; 3;0; 0;0; 1;0; 2;1]
+  = [0;1;0;1;0;0;0;0;0;  0;2;0;2;0;0;0;0;0;  0;2;1;2;0;0;1;0;0;  0;2;1;2;0;1;1;0;0;
+     0;1;1;1;1;1;1;0;0;  0;0;1;0;1;2;0;1;0].
+Proof. vm_compute. reflexivity. Qed.
